@@ -403,6 +403,8 @@ def outline_block(fn, spec, log):
     """Return a synthetic fn dict whose body is the block opened by the `{` that ends the match of
     spec['start'] inside fn's body (text copied verbatim) and whose signature is spec['sig']."""
     body = fn["body"]
+    if spec.get("no_await") and re.search(r"\.await\b", re.sub(r"//[^\n]*", "", body)):
+        raise ExtractError(f"block: fn {spec.get('of', '')} now contains an .await (it was await-free when the recipe was written)")
     if not spec.get("start"):
         # the whole function body is the block (the first statement acquires the guard)
         log["rewrites"].append(f"block outlining: the body of fn {spec.get('of', '')} copied verbatim into fn {spec['name']} with its free "
@@ -417,6 +419,11 @@ def outline_block(fn, spec, log):
     log["rewrites"].append(f"block outlining: the block opened by `{m.group(0).strip()[:70]}` of fn {spec.get('of', '')} "
                            f"({len(text.splitlines())} lines) copied verbatim into fn {spec['name']}; its free variables became parameters "
                            f"({spec.get('why', '')})")
+    if re.search(r"\.await\b", re.sub(r"//[^\n]*", "", re.sub(r"let mut \w+ = [\w\.]+\.(?:write|read|lock)\(\)\.await;", "", text))):
+        raise ExtractError("block: the outlined block contains an .await other than the guard acquisition")
+    if spec.get("append"):
+        text = text[:-1].rstrip() + "\n" + spec["append"] + "\n}"
+        log["rewrites"].append(f"block outlining: `{spec['append']}` appended to fn {spec['name']} (normal completion of the block)")
     return dict(sig_start=fn["sig_start"], body_open=0, body_close=0, sig=spec["sig"], body=text)
 
 
